@@ -39,6 +39,24 @@ type GenOpts struct {
 	ReaderMode  bool
 	Pauses      int // number of >250ms pauses to place in reader mode
 	ForceConfig *Config
+	Gunzip      bool // files mode: one workload in four is read the way -z reads (some inputs gzip-compressed on disk, the others as they are)
+}
+
+// applyGunzip: see GenOpts.Gunzip. Plain inputs of 1..9 bytes (shorter than a gzip header) stay plain on purpose.
+func applyGunzip(r *run.Rand, w *Workload, o GenOpts) {
+	if !o.Gunzip || o.ReaderMode || w.Cfg.Mode != "files" || r.Intn(4) != 0 {
+		return
+	}
+	w.Cfg.Gunzip = true
+	if w.Scenario == "raw" && r.Intn(2) == 0 {
+		// a plain file shorter than the 10-byte gzip header, anywhere among the others
+		tiny := Input{Name: "tiny", Data: r.Bytes(r.Range(1, 9), rawAlphabet)}
+		at := r.Intn(len(w.Inputs) + 1)
+		w.Inputs = append(w.Inputs[:at:at], append([]Input{tiny}, w.Inputs[at:]...)...)
+	}
+	for i := range w.Inputs {
+		w.Inputs[i].Gz = r.Intn(2) == 0
+	}
 }
 
 var (
@@ -67,7 +85,11 @@ func GenConfig(r *run.Rand, reader bool) Config {
 }
 
 func (c Config) String() string {
-	return fmt.Sprintf("%s/b%d/w%d/r%d/q%d/p%d/%s/%s", c.Mode, c.Batch, c.Workers, c.Readers, c.Buffer, c.GoMaxProcs, c.Delay, c.Consumer)
+	z := ""
+	if c.Gunzip {
+		z = "/gunzip"
+	}
+	return fmt.Sprintf("%s/b%d/w%d/r%d/q%d/p%d/%s/%s%s", c.Mode, c.Batch, c.Workers, c.Readers, c.Buffer, c.GoMaxProcs, c.Delay, c.Consumer, z)
 }
 
 func genPayload(r *run.Rand, long bool) []byte {
@@ -197,6 +219,7 @@ func GenStructured(r *run.Rand, o GenOpts) *Workload {
 	if o.ReaderMode {
 		w.Inputs[0].Steps = GenSteps(r, len(w.Inputs[0].Data), o.Pauses)
 	}
+	applyGunzip(r, w, o)
 	return w
 }
 
@@ -291,6 +314,7 @@ func GenRaw(r *run.Rand, o GenOpts) *Workload {
 	if o.ReaderMode {
 		w.Inputs[0].Steps = GenSteps(r, len(w.Inputs[0].Data), o.Pauses)
 	}
+	applyGunzip(r, w, o)
 	return w
 }
 
